@@ -349,6 +349,14 @@ class C19(Prop):
                     'op': 'req', 'cmd': 'kill', 'w': wk,
                     'props': {'pid': {'w': wk, 'j': 0}}, 'waiting': False,
                     'place': {'dt': rng.choice([0.1, 0.3, 0.6, 1.2, 2.0])}})
+            if kind != 'restartglob' and rng.random() < 0.25:
+                # the same request once more while the sequence is under
+                # way: refused (the slot is taken), the pacing is untouched
+                dup = dict(ops[-1], waiting=rng.random() < 0.5,
+                           place={'dt': rng.choice([0.05, 0.3, 0.6, 1.2])})
+                dup.pop('sync', None)
+                dup.pop('c19_window', None)
+                ops.insert(len(ops) - 1, dup)
             ops.append({'op': 'quiet', 'checks': 1})
         return {'cfg': cfg, 'ops': ops}
 
